@@ -4,6 +4,7 @@ import (
 	"context"
 	"fmt"
 	"sort"
+	"sync"
 	"testing"
 	"time"
 )
@@ -312,5 +313,230 @@ func TestRaceDirectedPoints(t *testing.T) {
 	res = run(true)
 	if len(res.RaceSites) != 0 || res.Outcomes["n=1"] != 0 || res.Outcomes["n=2"] == 0 {
 		t.Fatalf("mutex-protected increments: outcomes %v, racy sites %v", res.Outcomes, res.RaceSites)
+	}
+}
+
+// Conformance of the channel/select/sync model with the real runtime: small programs are
+// written once against the vrt API; run free (unmanaged threads fall back to the real
+// primitives) many times, every outcome they produce must be among the outcomes the
+// exhaustive exploration found.  (The converse — every explored outcome is possible for
+// real — cannot be sampled, but an explored outcome the runtime never shows would only make
+// checks alarm on correct code, and none does.)
+func TestConformanceWithRealRuntime(t *testing.T) {
+	type prog struct {
+		name string
+		body func(out func(string))
+	}
+	progs := []prog{
+		{"unbuffered-rendezvous-vs-default", func(out func(string)) {
+			ch, done := make(chan int), make(chan int)
+			Go(func() {
+				c := SendTo(ch).Case(1)
+				if Select(true, c) == 0 {
+					out("sent")
+				} else {
+					out("default")
+				}
+				Close(done)
+			})
+			r, d := RecvCase(ch), RecvCase(done)
+			if Select(false, r, d) == 0 {
+				out("got")
+				Recv2(done)
+			} else {
+				out("done")
+			}
+		}},
+		{"close-with-parked-receivers", func(out func(string)) {
+			ch := make(chan int)
+			var wg WaitGroup
+			for i := 0; i < 2; i++ {
+				wg.Add(1)
+				Go(func() {
+					defer wg.Done()
+					v, ok := Recv2(ch)
+					out(fmt.Sprintf("r%d/%v", v, ok))
+				})
+			}
+			Close(ch)
+			wg.Wait()
+		}},
+		{"buffered-order", func(out func(string)) {
+			ch := make(chan int, 2)
+			var wg WaitGroup
+			for i := 1; i <= 2; i++ {
+				i := i
+				wg.Add(1)
+				Go(func() { defer wg.Done(); SendTo(ch).Send(i) })
+			}
+			wg.Wait()
+			out(fmt.Sprint(Recv(ch), Recv(ch)))
+		}},
+		{"select-two-ready", func(out func(string)) {
+			a, b := make(chan int, 1), make(chan int, 1)
+			a <- 1
+			b <- 2
+			ra, rb := RecvCase(a), RecvCase(b)
+			out(fmt.Sprint(Select(false, ra, rb)))
+		}},
+		{"mutex-once-waitgroup", func(out func(string)) {
+			var mu Mutex
+			var once Once
+			var wg WaitGroup
+			n, inits := 0, 0
+			for i := 0; i < 3; i++ {
+				wg.Add(1)
+				Go(func() {
+					defer wg.Done()
+					once.Do(func() { inits++ })
+					mu.Lock()
+					n++
+					mu.Unlock()
+				})
+			}
+			wg.Wait()
+			out(fmt.Sprint(n, inits))
+		}},
+		{"flag-then-park-vs-nonblocking-notify", func(out func(string)) {
+			var flag int32
+			ch, done := make(chan int), make(chan int)
+			var wg WaitGroup
+			wg.Add(1)
+			Go(func() {
+				defer wg.Done()
+				StoreInt32(&flag, 1)
+				r, d := RecvCase(ch), RecvCase(done)
+				if Select(false, r, d) == 0 {
+					out("woken")
+				} else {
+					out("missed")
+				}
+			})
+			if LoadInt32(&flag) == 1 {
+				if Select(true, SendTo(ch).Case(1)) == 0 {
+					out("notified")
+				} else {
+					out("dropped")
+				}
+			} else {
+				out("noflag")
+			}
+			Close(done)
+			wg.Wait()
+		}},
+		{"close-under-pending-sender", func(out func(string)) {
+			ch := make(chan int)
+			var wg WaitGroup
+			wg.Add(1)
+			Go(func() {
+				defer wg.Done()
+				defer func() {
+					if recover() != nil {
+						out("panicked")
+					}
+				}()
+				SendTo(ch).Send(1)
+				out("sent")
+			})
+			if Select(true, RecvCase(ch)) == 0 {
+				out("got")
+			} else {
+				out("none")
+				Close(ch)
+			}
+			wg.Wait()
+		}},
+		{"select-send-or-recv", func(out func(string)) {
+			a, b := make(chan int), make(chan int)
+			var wg WaitGroup
+			wg.Add(2)
+			Go(func() { defer wg.Done(); out(fmt.Sprint("a", Select(true, SendTo(a).Case(1)))) })
+			Go(func() { defer wg.Done(); out(fmt.Sprint("b", Select(true, RecvCase(b)))) })
+			k := Select(true, RecvCase(a), SendTo(b).Case(2))
+			out(fmt.Sprint("m", k))
+			wg.Wait()
+		}},
+		{"cond-broadcast", func(out func(string)) {
+			var mu Mutex
+			c := NewCond(&mu)
+			gen := 0
+			var wg WaitGroup
+			for i := 0; i < 2; i++ {
+				wg.Add(1)
+				Go(func() {
+					defer wg.Done()
+					mu.Lock()
+					for gen == 0 {
+						c.Wait()
+					}
+					mu.Unlock()
+				})
+			}
+			mu.Lock()
+			gen = 1
+			c.Broadcast()
+			mu.Unlock()
+			wg.Wait()
+			out("all")
+		}},
+		{"cond-signal-before-or-after-wait", func(out func(string)) {
+			var mu Mutex
+			c := NewCond(&mu)
+			ready := false
+			var wg WaitGroup
+			wg.Add(1)
+			Go(func() {
+				defer wg.Done()
+				mu.Lock()
+				for !ready {
+					c.Wait()
+				}
+				mu.Unlock()
+				out("woke")
+			})
+			mu.Lock()
+			ready = true
+			mu.Unlock()
+			c.Signal()
+			wg.Wait()
+		}},
+	}
+	for _, p := range progs {
+		explored := map[string]bool{}
+		res := Explore(Options{Name: "conformance/" + p.name, Bound: 3, NoRace: true}, func(r *Run) {
+			var mu sync.Mutex
+			var parts []string
+			p.body(func(s string) { mu.Lock(); parts = append(parts, s); mu.Unlock() })
+			sort.Strings(parts)
+			r.Outcome("%v", parts)
+		})
+		if len(res.Violations) > 0 {
+			t.Fatalf("%s: %v", p.name, res.Violations[0].Msgs)
+		}
+		for k := range res.Outcomes {
+			explored[k] = true
+		}
+		for i := 0; i < 3000; i++ {
+			var mu sync.Mutex
+			var parts []string
+			done := make(chan struct{})
+			go func() {
+				defer close(done)
+				p.body(func(s string) { mu.Lock(); parts = append(parts, s); mu.Unlock() })
+			}()
+			select {
+			case <-done:
+			case <-time.After(60 * time.Second):
+				t.Fatalf("%s: free run %d hung", p.name, i)
+			}
+			mu.Lock()
+			sort.Strings(parts)
+			k := fmt.Sprint(parts)
+			mu.Unlock()
+			if !explored[k] {
+				t.Fatalf("%s: the real runtime produced outcome %s, which the exploration never saw (explored: %v)", p.name, k, res.Outcomes)
+			}
+		}
+		t.Logf("%s: explored outcomes %v", p.name, res.Outcomes)
 	}
 }
